@@ -59,7 +59,9 @@ Some(x) == [has |-> TRUE, v |-> x]
 (*            random source yields first ("A","a","b" collide, "g" fresh)  *)
 (*   ib       0 none; 1 = before-interceptor adds the stored i to the      *)
 (*            written i (read-modify-write delta)                          *)
-(*   ia       0 none; 1 = after-interceptor sets s = 1 iff i changed       *)
+(*   ia       0 none; 1 = after-interceptor sets s = 1 iff i changed;      *)
+(*            2 = after-interceptor stamps every successful write, also    *)
+(*            one that leaves the message as it was: s = (old s mod 3) + 1 *)
 (*   wt       -1 none, else the write time                                 *)
 (* The id and created callbacks are always installed; the model says how  *)
 (* often each fires.                                                      *)
@@ -68,7 +70,8 @@ CheckErr(chk, oldmsg) == IF chk = 1 /\ oldmsg.i < 1 THEN "PermissionDenied" ELSE
 
 \* the written message after the before-interceptor
 Before(o, oldmsg, wr) == IF o.ib = 1 THEN [wr EXCEPT !.i = wr.i + oldmsg.i] ELSE wr
-After(o, oldmsg, new) == IF o.ia = 1 /\ oldmsg.i # new.i THEN [new EXCEPT !.s = 1] ELSE new
+After(o, oldmsg, new) == IF o.ia = 1 /\ oldmsg.i # new.i THEN [new EXCEPT !.s = 1]
+                         ELSE IF o.ia = 2 THEN [new EXCEPT !.s = (oldmsg.s % 3) + 1] ELSE new
 
 \* the update mask a write really uses
 \* (fieldmaskpb.Union normalises: a path listed together with one of its ancestors disappears,
